@@ -86,6 +86,9 @@ Verdict(e) ==
       P_C15_OldIntact |-> \A h \in hs : ob(h).old_intact,
       P_C15_ChainLists |-> \A h \in hs : HRec(e, h).prior > 0 => (ob(h).chain = "full" /\ ob(h).chain_lists_old),
       P_C15_AllOrNothing |-> \A h \in hs : ob(h).man \in {"absent", "full"} /\ (ob(h).chain_lists_new => ob(h).man = "full"),
+      \* the interrupted generation is present for the loader exactly when the chain lists it - right after the kill and
+      \* after the next create as well (a manifest that never made it into the chain is not a generation)
+      P_C15_Listed |-> e.after.listed_ok,
       P_C15_Loadable |-> /\ e.after.info \notin {1, 31, 33} /\ e.after.verify \notin {1, 31, 33} /\ e.after.create \notin {1, 31, 33}
                          /\ (HRec(e, e.loadorder[1]).prior > 0 => (e.after.info = 0 /\ e.after.verify = 0 /\ e.after.create = 0)),
       A_midwrite |-> e.mode = "partial"]
